@@ -11,10 +11,10 @@
      Memoryless        (action property) a rejected attempt changes nothing but the tape position
    and, in the initial state of every (kind, n, k):
      FibresEqual       the induced map  tapes -> results  has EQUAL FIBRES: among all BB^L tapes of length L (every
-                       L in MinLen(n)..MaxLen) each permutation (each k-sequence) is the result of the same, positive, number
+                       L in MinLen(n)..FibreLen) each permutation (each k-sequence) is the result of the same, positive, number
                        of tapes (a tape counts for the result reached within its L bytes). *)
 EXTENDS Sampler
-CONSTANTS MaxN, MaxLen
+CONSTANTS MaxN, MaxLen, FibreLen     \* MaxLen bounds the explored tapes, FibreLen the tapes counted in FibresEqual
 VARIABLES lvl, s, tape
 vars == <<lvl, s, tape>>
 Start(kind, n, k) == [kind |-> kind, n |-> n, k |-> k, arr |-> [j \in 1..n |-> j - 1], i |-> n - 1, out |-> <<>>,
@@ -44,11 +44,14 @@ Terminal == (lvl = 2 /\ s.st = "done") =>
    IF s.kind = "shuffle" THEN ToSet(s.arr) = 0..(s.n - 1) /\ Len(s.arr) = s.n
    ELSE Len(s.out) = s.k /\ Cardinality(ToSet(s.out)) = s.k /\ ToSet(s.out) \subseteq 0..(s.n - 1)
 Admissible(x) == IF x.kind = "shuffle" THEN 0..x.i ELSE (0..(x.n - 1)) \ ToSet(x.out)
-Hits(x, v) == Cardinality({d \in 0..(BB - 1) : Accepts(x, d) /\ SmpVal(Att(x, d).cb) = v})
+\* the index accepted by each byte value (-1 = rejected), computed once per state
+Picks(x) == TLCEval([d \in 0..(BB - 1) |-> IF Accepts(x, d) THEN SmpVal(Att(x, d).cb) ELSE 0 - 1])
 StepUniform == (lvl = 2 /\ s.st = "run") =>
-   /\ \A v1, v2 \in Admissible(s) : Hits(s, v1) = Hits(s, v2)
-   /\ \A v \in Admissible(s) : Hits(s, v) > 0
-   /\ \A d \in 0..(BB - 1) : Accepts(s, d) => SmpVal(Att(s, d).cb) \in Admissible(s)
+   LET pk == Picks(s)
+       hits == [v \in Admissible(s) |-> Cardinality({d \in 0..(BB - 1) : pk[d] = v})]
+   IN /\ \A v1, v2 \in Admissible(s) : hits[v1] = hits[v2]
+      /\ \A v \in Admissible(s) : hits[v] > 0
+      /\ \A d \in 0..(BB - 1) : pk[d] >= 0 => pk[d] \in Admissible(s)
 RunMatchesSteps == lvl = 2 =>
    LET r == IF s.kind = "shuffle" THEN SmpShuffle(s.n, tape) ELSE SmpSample(s.n, s.k, tape) IN
    IF s.st = "done" THEN r.st = "done" /\ r.drawn = Len(tape) /\ r.out = (IF s.kind = "shuffle" THEN s.arr ELSE s.out)
@@ -73,5 +76,5 @@ FibresAt(kind, n, k, L) ==
    IN /\ \A q \in res : h[Code(q, n) + 1] = h[Code(one, n) + 1]
       /\ h[Code(one, n) + 1] > 0
       /\ (h[Code(one, n) + 1] * Cardinality(res)) + h[top + 1] = BB ^ L            \* nothing but results and unfinished tapes
-FibresEqual == (lvl = 2 /\ tape = <<>>) => \A L \in MinLen(s.kind, s.n, s.k)..MaxLen : L >= 1 => FibresAt(s.kind, s.n, s.k, L)
+FibresEqual == (lvl = 2 /\ tape = <<>>) => \A L \in MinLen(s.kind, s.n, s.k)..FibreLen : L >= 1 => FibresAt(s.kind, s.n, s.k, L)
 =============================================================================
